@@ -760,6 +760,9 @@ result_t NumberDataType::derive(int divisor, size_t bitCount, const NumberDataTy
   }
   ostringstream str;
   str << m_id << ',' << static_cast<unsigned>(bitCount) << ',' << static_cast<signed>(divisor);
+  if (m_bitCount >= 8) {
+    str << ',' << static_cast<unsigned>(m_minValue) << ',' << static_cast<unsigned>(m_maxValue);
+  }
   string key = str.str();
   *derived = static_cast<const NumberDataType*>(DataTypeList::getInstance()->get(key));
   if (*derived == nullptr) {
